@@ -259,6 +259,12 @@ def cmd_check(prop, tier):
                     for kk, vv in s[k].items():
                         stats[k][kk] = stats[k].get(kk, 0) + vv
             elif t == "violation":
+                fpv = j.get("fingerprint", "")
+                if binary.startswith("base_") and (fpv.startswith("crash|") or fpv.startswith("unexpected-exception|")) and "|read_peer_image|" not in fpv:
+                    # the frozen old release crashed or threw while executing the plan itself: a defect of the old release (repaired since), nothing about
+                    # the tree under test; only what happens while it reads the new release's images is a verdict
+                    stats["probes"]["old_release_failed_executing_plan"] = stats["probes"].get("old_release_failed_executing_plan", 0) + 1
+                    continue
                 j["binary"] = binary; violations.append(j)
             elif t == "nondeterminism":
                 nondet.append(j)
